@@ -4,7 +4,6 @@ package genprops
 
 import (
 	"bytes"
-	"encoding/json"
 	"fmt"
 	"go/ast"
 	"go/parser"
@@ -275,11 +274,6 @@ func runGenProperty(t *testing.T, stress bool, check string) {
 		msg, known := checkGen(rec, c)
 		if known != "" {
 			rec.Known(known, kf.What(known), c)
-			return
-		}
-		if d := os.Getenv("VERIF_C12_EXPLORE"); d != "" && msg != "" { // TEMPORARY-EXPLORE
-			b, _ := json.Marshal(map[string]any{"msg": msg, "schema": c.Schema})
-			os.WriteFile(filepath.Join(d, fmt.Sprintf("%d-%d.json", os.Getpid(), caseNo)), b, 0o644)
 			return
 		}
 		if msg != "" {
